@@ -61,7 +61,7 @@ def run(c):
     c.judge(tr, logf)
     nodes = vlib.read_log(logf)
     st = tr["stats"]
-    if (st.get("points", 0) < 5 or st.get("nonEmptyParts", 0) < 100 or st.get("contTxOk", 0) < 10 or st.get("contIds", 0) == 0
+    if not c.violations and (st.get("points", 0) < 5 or st.get("nonEmptyParts", 0) < 100 or st.get("contTxOk", 0) < 10 or st.get("contIds", 0) == 0
             or st.get("absCloses", 0) == 0 or st.get("absRT", 0) == 0 or st.get("absCont", 0) == 0 or st.get("halts", 0) > 0):
         raise vlib.NoVerdict("vacuous run: %s" % st)
     kv = {}
